@@ -240,8 +240,9 @@ AesVectors ==
 \* specification's encryption (IV, AES-CBC of payload + pad, evaluated with the standard library), and each must come
 \* back as its own payload whatever the same layer decoded before (longer, shorter, equal, empty)
 AesPacket(key, k, n) == LET iv == RBytes(k + 300, 16)  pl == RBytes(n + k + 1, n) IN
-  [t |-> Cat(<< B(iv), Aes(B(key), B(iv), B(pl \o ConfPadBytes(n))) >>), payload |-> pl]
-LenSeqs == { <<200, 191>>, <<40, 3, 40>>, <<0, 16, 15, 0>>, <<5, 100, 5, 37, 1>>, <<63, 47, 31, 15, 0>>, <<1, 17, 33, 49>>, <<128, 16>> }
+  [t |-> Cat(<< B(iv), Aes(B(key), B(iv), B(pl \o ConfPadBytes(n))) >>), payload |-> pl, padded |-> pl \o ConfPadBytes(n)]
+LenSeqs == { <<300>>, <<255, 256, 257>>, <<447, 16>>, <<400, 5, 272>>, <<12, 5>>, <<0, 1, 2, 3, 4, 5, 6, 7, 8, 9, 10, 11, 12, 13, 14, 15, 16>>,
+             <<16, 15, 14, 13, 12, 11, 10, 9, 8, 7, 6, 5, 4, 3, 2, 1, 0>>, <<200, 191>>, <<40, 3, 40>>, <<0, 16, 15, 0>>, <<5, 100, 5, 37, 1>>, <<63, 47, 31, 15, 0>>, <<1, 17, 33, 49>>, <<128, 16>> }
            \cup { <<a, c>> : a \in {0, 7, 15, 16, 31, 48, 90}, c \in {0, 7, 15, 16, 31, 48, 90} }
 AesSeqVectors ==
   { [id |-> "AES/seq/" \o ToString(q) \o "/" \o ToString(k), prop |-> "C08", kind |-> "aesseq", layer |-> "AES128CBC", class |-> "decode-sequence",
